@@ -79,6 +79,8 @@ CatCfg == {L_cfg2, L_cfg1, L_cfg3}
 CatIm == {L_imcomm, L_imw, L_imrb}
 CatSub == {L_ovr1, L_subh2, L_ovrw}
 CatPlain == {L_r2, L_ovrnp, L_crnp}
+CatQSub == {L_subh2, L_ovrw}
+CatQIm == {L_imcomm, L_imrb}
 NoDevs == {}
 AsImplMask == {"MaskErr"}
 AsImplNone == {"WriteNone"}
